@@ -213,7 +213,9 @@ def z3(cx):
             t = b['t']
             if t['k'] == 'call' and t['f']['o'] == 'const' and 'fn' in t['f']:
                 nm = t['f']['fn']['p']
-                if nm.startswith(('rc::MutRc::<T>::own', 'rc::MutArc::<T>::own')) or (nm.endswith('From::from') and t['f']['fn'].get('a') and roles.type_tag(F, t['f']['fn']['a'][0]).startswith(('MutRc<', 'MutArc<'))):
+                import re as _re
+                nm0 = _re.sub(r'::<[^>]*>', '', nm)      # (whatever the type parameter of the cell is called)
+                if nm0.startswith(('rc::MutRc::own', 'rc::MutArc::own')) or (nm.endswith('From::from') and t['f']['fn'].get('a') and roles.type_tag(F, t['f']['fn']['a'][0]).startswith(('MutRc<', 'MutArc<'))):
                     owns.append(t)
         if not owns:
             continue
@@ -223,6 +225,13 @@ def z3(cx):
         im = F.impl_of_fn(root)
         short = ('%s::%s' % (roles.impl_tag(cx, im).split('::')[-1], name)) if im and not im.get('trait') else (im and im.get('trait', '').split('::')[-1] + '::' + name) if im else name
         ok = name == 'actual_subscribe' or short in CELL_CREATORS or name in CELL_CREATORS or (im and roles.impl_tag(cx, im).split('::')[-1].split('<')[0] + '::' + name in CELL_CREATORS)
+        if not ok and im and not im.get('trait') and not root.get('has_self', False):
+            # an associated constructor (by any name) of a type that is an observer, or of the state struct an observer cell wraps
+            t_ = roles.impl_tag(cx, im)
+            obs_ = {roles.impl_tag(cx, o) for o in cx.observer_impls()}
+            inputs_ = [F.tystr(i) for i in root.get('inputs', [])]
+            if (t_ in obs_ or any(t_.split('::')[-1] in o for o in obs_)) and not any(i in ('Self', '&Self', '&mut Self') for i in inputs_):
+                ok = True
         if not ok:
             res.append(Finding(ID, 'Z3', 'cell created in ' + cx.label(root), False, 'a shared cell is created outside actual_subscribe / an observer constructor: state could outlive or span subscriptions', root['span']))
     res.append(Finding(ID, 'Z3', 'cell creation sites', m >= 40, '%d $rc::own sites, all inside actual_subscribe or tabled constructors' % m))
